@@ -178,6 +178,26 @@ def edits():
         touched.add("__rv_structure__")
         return pm.split_joint_distribution(m, sel)
 
+    def _rv_params(m):
+        rvp = set(m.random_variables.parameter_names)
+        return [p for p in m.parameters if p.name in rvp and "DUMMY" not in p.name]
+
+    def e_fix_rv(m, r, touched):
+        cands = [p for p in _rv_params(m) if not p.fix]
+        if not cands:
+            raise ValueError("nothing to fix")
+        sel = r.sample(cands, r.randint(1, min(2, len(cands))))
+        touched.update(p.name for p in sel)
+        return pm.fix_parameters(m, [p.name for p in sel])
+
+    def e_unfix_rv(m, r, touched):
+        cands = [p for p in _rv_params(m) if p.fix]
+        if not cands:
+            raise ValueError("nothing fixed")
+        sel = r.sample(cands, r.randint(1, min(2, len(cands))))
+        touched.update(p.name for p in sel)
+        return pm.unfix_parameters(m, [p.name for p in sel])
+
     def e_error(m, r, touched):
         f = r.choice([pm.set_additive_error_model, pm.set_proportional_error_model, pm.set_combined_error_model])
         touched.add("__eps__")
@@ -187,6 +207,7 @@ def edits():
         "set_init_theta": e_init, "set_init_omega": e_init_omega, "set_lower": e_lower, "set_upper": e_upper,
         "fix": e_fix, "unfix": e_unfix, "fix_to": e_fix_to, "add_theta": e_add_theta, "remove_theta": e_remove_theta,
         "add_iiv": e_add_iiv, "remove_iiv": e_remove_iiv, "join": e_join, "split": e_split, "error_model": e_error,
+        "fix_rv": e_fix_rv, "unfix_rv": e_unfix_rv,
     }
 
 
